@@ -74,7 +74,10 @@ package flags
 //@   ensures islong ==> ((arg != nil) == contains(option, "="))
 //@   ensures[C02] !islong ==> ((arg != nil) == (0 < n && n < len(option) && option[n] == '='))
 //@   ensures[C02] !islong && arg != nil ==> len(name) == n
-//@   ensures arg != nil ==> option == name + "=" + *arg && split == "="
+//@   ensures arg != nil ==> split == "=" && len(option) == len(name) + 1 + len(*arg)
+//@   ensures arg != nil ==> name == option[:len(name)]
+//@   ensures arg != nil ==> option[len(name)] == '='
+//@   ensures arg != nil ==> *arg == option[len(name)+1:]
 //@   ensures arg != nil && islong ==> !contains(name, "=")
 //@   ensures arg == nil ==> name == option && split == ""
 
@@ -369,6 +372,7 @@ package flags
 
 //@ func (c *Command) fillParseState(s *parseState)
 //@   props C07 C08 C10 C04
+//@   traced
 //@   requires c != nil && s != nil && use(wf_cmd, c)
 //@   ensures[C03,C07,C08] s.command == c && s.lookup == c.makeLookup()
 //@   ensures[C07,C08] lookupOK(s)
@@ -384,6 +388,8 @@ package flags
 //@   ensures[C08] sel && cmd != nil ==> err == nil && c0.Active == cmd && s.command == cmd && s.lookup == cmd.makeLookup() && same(s.retargs, old(s.retargs)) && s.err == old(s.err)
 //@   ensures[C08,C10] sel && cmd != nil ==> len(s.positional) == len(cmd.args) && forall(i, 0, len(cmd.args), s.positional[i] == cmd.args[i])
 //@   ensures[C08] sel && cmd != nil ==> ncalls(convert) == old(ncalls(convert))
+//@   ensures[C08] sel && cmd != nil ==> ncalls(Command.fillParseState) == old(ncalls(Command.fillParseState)) + 1 && callarg(Command.fillParseState, old(ncalls(Command.fillParseState)), 0) == cmd
+//@   ensures[C08] !(sel && cmd != nil) ==> ncalls(Command.fillParseState) == old(ncalls(Command.fillParseState))
 //@   ensures[C08] sel && cmd != nil ==> subOf(cmd, c0) && answersTo(cmd, s.arg)
 //@   ensures[C07,C08] lookupOK(s)
 //@   ensures[C08,C04] sel && cmd == nil && !c0.SubcommandsOptional ==> isTyped(err, ErrUnknownCommand)
@@ -428,6 +434,7 @@ package flags
 //@   ensures err == nil ==> p.err == old(p.err)
 //@   assigns p.err
 //@ assumed func (p *parseState) estimateCommand() (err error)
+//@   traced
 //@   ensures isTyped(err, ErrUnknownCommand) || isTyped(err, ErrCommandRequired)
 //@ assumed func Commander.Execute(c Commander, args []string) (err error)
 //@   traced
@@ -454,14 +461,18 @@ package flags
 //@   let pl0 := ncalls(Parser.parseLong)
 //@   let ps0 := ncalls(Parser.parseShort)
 //@   let cv0 := nfails(convert)
+//@   let est0 := ncalls(parseState.estimateCommand)
+//@   let fp0 := ncalls(Command.fillParseState)
 //@   let compl := os.Getenv("GO_FLAGS_COMPLETION") != ""
 //@   loop 2 invariant s.err == nil ==> nfails(convert) == old(nfails(convert))
 //@   loop 2 invariant s != nil && s.command != nil && lookupOK(s)
+//@   loop 2 invariant ncalls(Command.fillParseState) > old(ncalls(Command.fillParseState)) && s.command == callarg(Command.fillParseState, ncalls(Command.fillParseState) - 1, 0)
 //@   loop 2 invariant is(s.err, *Error) ==> as(s.err, *Error) != nil
 //@   loop 2 invariant forall(k, old(ncalls(Parser.parseLong)), ncalls(Parser.parseLong), okResult(p, callres(Parser.parseLong, k, 0)))
 //@   loop 2 invariant forall(k, old(ncalls(Parser.parseShort)), ncalls(Parser.parseShort), okResult(p, callres(Parser.parseShort, k, 0)))
 //@   loop 2 decreases len(s.args)
 //@   loop 3 invariant s != nil && s.command != nil
+//@   loop 3 invariant ncalls(Command.fillParseState) > old(ncalls(Command.fillParseState)) && s.command == callarg(Command.fillParseState, ncalls(Command.fillParseState) - 1, 0)
 //@   loop 3 invariant s.err == nil ==> nfails(convert) == old(nfails(convert))
 //@   loop 3 invariant is(s.err, *Error) ==> as(s.err, *Error) != nil
 //@   ensures[C09] ncalls(Commander.Execute) + ncalls(Parser.CommandHandler) <= e0 + h0 + 1
@@ -479,6 +490,9 @@ package flags
 //@   ensures[C04] !compl ==> ncalls(Parser.printError) == pe0 + ite(err != nil && p.internalError == nil, 1, 0)
 //@   ensures[C04] !compl && err != nil && p.internalError == nil ==> callarg(Parser.printError, pe0, 1) == err
 //@   ensures[C19] p.internalError != nil ==> err == p.internalError && rest == nil
+//@   ensures[C08] !compl && p.internalError == nil ==> ncalls(Command.fillParseState) > fp0
+//@   ensures[C08] !compl && p.internalError == nil && err == nil ==> len(callarg(Command.fillParseState, ncalls(Command.fillParseState) - 1, 0).commands) == 0 || callarg(Command.fillParseState, ncalls(Command.fillParseState) - 1, 0).SubcommandsOptional
+//@   ensures[C08] ncalls(parseState.estimateCommand) <= est0 + 1 && (ncalls(parseState.estimateCommand) == est0 + 1 ==> err == callres(parseState.estimateCommand, est0, 0) && ncalls(Commander.Execute) == e0 && ncalls(Parser.CommandHandler) == h0)
 
 // ===================================================================
 // command.go / parser.go: visible commands and the unknown-command diagnosis
